@@ -440,7 +440,7 @@ def _cb(kind):
 def _rand_effect(rng, case, tag):
     r = rng.random()
     if case.profile.get("p_neutral_fx") and rng.random() < case.profile["p_neutral_fx"]:
-        return rng.choice([{"$": "emit", "ev": rng.choice(["X", "Y"])}, {"$": "logcb"}])
+        return rng.choice([{"$": "emit", "ev": rng.choice(["X", "Y"])}, {"$": "logcb", "tag": tag}])
     if r < 0.3:
         return {"$": "inc", "key": "n"}
     if r < 0.45:
@@ -559,8 +559,8 @@ def _mat_effect(e: Dict[str, Any]) -> Dict[str, Any]:
     if k == "emit":
         return {"type": "xstate.emit", "params": {"event": {"type": e["ev"], "emitted": True}}}
     if k == "logcb":
-        def expr(a):
-            _cb("log")
+        def expr(a, _t=e.get("tag", "")):
+            _cb("log:" + _t)
             return "x"
         return {"type": "xstate.log", "params": {"expr": expr}}
     if k == "inc":
